@@ -200,7 +200,7 @@ def gen_table_zone(rng, nmax=12, offs=None, base=None, leaps=None, rule="auto"):
     ty = [rand_type(rng, offs) for _ in range(ntypes)]
     n = rng.randint(0, nmax)
     lp = leap_table(rng) if leaps is None else leaps
-    t = base if base is not None else rng.choice([0, rng.randint(-2**33, 2**33), rng.randint(-10**6, 2 * 10**9)])
+    t = base if base is not None else rng.choice([0, rng.randint(-2**33, 2**33), rng.randint(-10**6, 2 * 10**9), rng.randint(2**31, 2**32), -rng.randint(2**31, 2**33)])
     if lp and rng.random() < 0.7:
         t = rng.choice(lp)[0] + rng.randint(-3, 3)
     tr = []
@@ -216,6 +216,29 @@ def gen_table_zone(rng, nmax=12, offs=None, base=None, leaps=None, rule="auto"):
             if cand > t:
                 step = cand - t
         t += step
+    if rng.random() < 0.35:
+        # shapes that real data rarely has but every statement covers: duplicate types, types differing only in the DST flag or
+        # only in the designation, a first transition to type 0, a last transition that repeats the previous type, one- and
+        # two-entry tables
+        k = rng.randrange(6)
+        if k == 0 and ty:
+            ty.append(dict(rng.choice(ty)))                                     # exact duplicate, both indices in use
+            for x in tr[::2]:
+                x[1] = len(ty) - 1
+        elif k == 1 and ty:
+            twin = dict(rng.choice(ty)); twin["dst"] = 1 - twin["dst"]; ty.append(twin)
+            for x in tr[1::2]:
+                x[1] = len(ty) - 1
+        elif k == 2 and ty:
+            twin = dict(rng.choice(ty)); twin["des"] = B("XYZ") if twin["des"] != B("XYZ") else B("XYW"); ty.append(twin)
+            for x in tr[1::2]:
+                x[1] = len(ty) - 1
+        elif k == 3 and tr:
+            tr[0][1] = 0
+        elif k == 4 and len(tr) >= 2:
+            tr[-1][1] = tr[-2][1]
+        elif k == 5:
+            tr = tr[: rng.choice([1, 2])]
     if rule == "auto":
         rule = rng.choice(["none", "none", "fixed"])
     if rule == "fixed":
@@ -284,6 +307,8 @@ def gen_zone_session(rng, z, nprobe=40, do_find=True, do_findn=False, lookups=Tr
             yield {"op": "lookup", "a": {"u": W(u), "via": rng.choice(["ref", "owned"])}}
             if rng.random() < 0.3:
                 yield {"op": "localtime", "a": {"u": W(u), "ns": rng.choice([0, 999999999])}}
+            if do_find and rng.random() < 0.25:
+                yield {"op": "roundtrip", "a": {"u": W(u), "ns": rng.choice([0, 7])}}
             if rng.random() < 0.15 and abs(u) < 2**62:
                 yield {"op": "fromnanos", "a": {"N": W(u * 10**9 + rng.choice([0, 1, 500000000, 999999999])), "via": "zone", "type": {"off": 0, "dst": 0, "des": []}}}
         if do_find and MINT + 2**32 < u < MAXT - 2**32:
@@ -479,7 +504,8 @@ def gen_c13(rng, n):
         if rng.random() < 0.3:
             yield {"op": "lookup", "a": {"u": W(rng.randint(-10**9, 10**9)), "via": "ref"}}
     # local time types
-    alphabet = [ord("A"), ord("z"), ord("0"), ord("9"), ord("+"), ord("-"), ord(" "), 0, 0x80, ord("_"), ord("/"), ord(":"), ord("<")]
+    alphabet = [ord("A"), ord("z"), ord("0"), ord("9"), ord("+"), ord("-"), ord(" "), 0, 0x80, ord("_"), ord("/"), ord(":"), ord("<"),
+                ord(","), ord("."), ord("*"), ord("@"), ord("["), ord("`"), ord("{"), 0x7f, 0xff]       # the neighbours of every allowed range
     for _ in range(n):
         ln = rng.randint(0, 9)
         if rng.random() < 0.6:
@@ -527,6 +553,18 @@ def gen_many_types_zone(rng):
     for ix in order:
         tr.append([t, ix])
         t += rng.choice([3600, 86400, 10**6, rng.randint(1800, 10**7)])
+    return {"tr": tr, "ty": ty, "lp": [], "rule": rng.choice([{"k": "none"}, {"k": "fixed", "t": dict(ty[tr[-1][1]])}])}
+
+
+def gen_huge_type_list_zone(rng):
+    """more local time types than a TZif file can index (257..400), the table using indices beyond 255"""
+    nt = rng.randint(257, 400)
+    ty = [{"off": 900 * (i % 96) - 43200 + (i // 96), "dst": i % 2, "des": B(DESIGS[i % len(DESIGS)])} for i in range(nt)]
+    t = rng.randint(0, 10**9)
+    tr = []
+    for ix in [0, 255, 256, nt - 1, rng.randrange(256, nt), 1, nt - 2]:
+        tr.append([t, ix])
+        t += rng.choice([3600, 86400, 10**6])
     return {"tr": tr, "ty": ty, "lp": [], "rule": rng.choice([{"k": "none"}, {"k": "fixed", "t": dict(ty[tr[-1][1]])}])}
 
 
@@ -644,6 +682,7 @@ def gen_find_zones(rng, nzones, findn=False):
         yield from gen_rule_zone_session(rng, new_year_rule(rng), with_table=(i % 3 == 2), do_find=True, do_findn=findn, nprobe=20)
     for _ in range(max(3, nzones // 25)):
         yield from gen_zone_session(rng, gen_many_types_zone(rng), nprobe=40, do_find=True, do_findn=findn, lookups=not findn)
+    yield from gen_zone_session(rng, gen_huge_type_list_zone(rng), nprobe=16, do_find=True, do_findn=findn, lookups=not findn)
     for _ in range(max(2, nzones // 60)):
         yield from gen_same_rule_family(rng, do_findn=findn)
     if not findn:
@@ -651,7 +690,7 @@ def gen_find_zones(rng, nzones, findn=False):
     else:
         yield from as_findn(rng, gen_range_end_finds(rng, max(10, nzones // 10)))
         yield from gen_same_instant_pairs(rng, max(5, nzones // 20))
-    for t in K2_RULES + K1_RULES:
+    for t in K2_RULES + K1_RULES + COINCIDENT_RULES:
         yield from gen_rule_zone_session(rng, named_rule(t), with_table=False, do_find=True, do_findn=findn, nprobe=60)
     for i in range(nzones // 2):
         r = corpus_rule(i) if i % 3 == 0 else rand_rule(rng)
@@ -687,12 +726,26 @@ def gen_nanos_zone(rng, nz):
     """total nanoseconds through a zone: counts around transition instants (also before 1970, where floor and truncation differ)"""
     G = 10**9
     for _ in range(nz):
-        z = gen_table_zone(rng, nmax=6, base=rng.choice([-10**9, -86400 * 365, 0, 10**9]), leaps=[])
+        z = gen_table_zone(rng, nmax=6, base=rng.choice([-10**9, -86400 * 365, 0, 10**9]), leaps=[] if rng.random() < 0.6 else None)
         yield zone_event(z)
         for t, _ in z["tr"]:
             for d in (-1, 0, 1):
                 for frac in (0, 1, G // 2, G - 1):
                     yield {"op": "fromnanos", "a": {"N": W((t + d) * G + frac), "via": "zone", "type": {"off": 0, "dst": 0, "des": []}}}
+    # a zone whose type list has ONE entry is not a fixed zone: the rule (or the end of the table) still decides
+    for i in range(max(6, nz // 4)):
+        r = corpus_rule(i) if i % 2 == 0 else rand_rule(rng)
+        if i % 3 == 2:
+            t0 = rng.randint(0, 10**9)
+            z = {"tr": [[t0, 0], [t0 + 10**6, 0]], "ty": [dict(r["std"])], "lp": [], "rule": {"k": "none"}}
+        else:
+            z = {"tr": [], "ty": [dict(r["std"])], "lp": [], "rule": r}
+        yield zone_event(z)
+        base_t = z["tr"][-1][0] if z["tr"] else days_from_civil(rng.randint(1980, 2100), 1, 1) * DAY
+        for k in range(10):
+            u = base_t + rng.choice([-1, 0, 1, 10**6]) if z["tr"] else base_t + k * 37 * DAY + rng.randint(0, 86399)
+            yield {"op": "fromnanos", "a": {"N": W(u * G + rng.choice([0, 1, G - 1])), "via": "zone", "type": {"off": 0, "dst": 0, "des": []}}}
+            yield {"op": "localtime", "a": {"u": W(u), "ns": 0}}
     # counts at the ends of the supported range through fixed-offset zones: the local reading, not the instant, must be representable
     for _ in range(max(6, nz // 4)):
         off = rng.choice([1, -1, 3600, -3600, 86399, -86399, rng.randint(-90000, 90000)])
@@ -785,6 +838,11 @@ def gen_c14(rng, n):
             t2 = L - off + rng.choice([0, 0, 0, 1, -1])
             b = {"t": W(t2), "ns": rng.choice([ns, ns, 0, 999999999]), "type": rand_type(rng, "small")}
             yield {"op": "dtcmp", "a": {"a": a, "b": b} if rng.random() < 0.5 else {"a": b, "b": a}}
+        elif k < 0.705:
+            # second 60 in the last minute of a local day: the date fields stay on that day, the instant is the next midnight
+            f = rand_fields(rng, 1.0)
+            f.update({"h": 23, "mi": 59, "s": 60, "type": ty})
+            yield {"op": "newdt", "a": f}
         elif k < 0.72:
             # exact (also negative) multiples of 10^9 and their neighbours as total counts, through a local type and through the zone
             N = rng.choice([-1, -2, -60, -86400, -2**31, -9223372036, 1, 0, rng.randint(-9 * 10**9, 9 * 10**9)]) * 10**9 + rng.choice([0, 0, 0, 1, -1, 999999999])
@@ -894,6 +952,13 @@ K2_RULES = [
     ("EST", -18000, "EDT", -14400, ["Z", 59], 90000, ["J", 60], 7200),       # EST5EDT,59/25,J60 : S = E in leap years
     ("STD", 0, "DST", 3600, ["J", 365], 90000, ["Z", 365], 10800),           # coincide in common years
 ]
+# northern rules whose two instants coincide in common years only, and rules whose instants coincide every year (empty DST period)
+COINCIDENT_RULES = [
+    ("STD", 0, "DST", 3600, ["Z", 59], 0, ["J", 60], 3600),
+    ("EST", -18000, "EDT", -14400, ["Z", 59], 7200, ["J", 60], 10800),
+    ("STD", 0, "DST", 3600, ["M", 4, 2, 0], 7200, ["M", 4, 2, 0], 10800),
+    ("STD", 0, "DST", 3600, ["J", 100], 7200, ["J", 100], 10800),
+]
 K1_RULES = [
     ("AAA", 56797, "BBB", -24759, ["J", 8], -417523, ["Z", 363], 599731),    # overlapping DST periods
     ("STD", 0, "DST", 3600, ["J", 8], -417523, ["Z", 363], 599731),
@@ -976,6 +1041,8 @@ def gen_rule_zone_session(rng, r, with_table=False, do_find=True, do_findn=False
         return {"op": "find", "a": f}
     for u in pts[:nprobe]:
         yield {"op": "lookup", "a": {"u": W(u), "via": "ref"}}
+        if do_find and rng.random() < 0.3:
+            yield {"op": "roundtrip", "a": {"u": W(u), "ns": 0}}
         if do_find and MINT + 4 * 10**5 < u < MAXT - 4 * 10**5:
             yield search(u + rng.choice(offs) + rng.choice([-1, 0, 0, 1]))
     if rng.random() < 0.3:
@@ -1135,7 +1202,7 @@ def gen_c04(rng, nrules, do_find=False):
         yield zone_event(z)
         for u in new_year_probes(rng, r):
             yield {"op": "lookup", "a": {"u": W(u), "via": "ref"}}
-    for t in K2_RULES + K1_RULES:
+    for t in K2_RULES + K1_RULES + COINCIDENT_RULES:
         yield from gen_rule_zone_session(rng, named_rule(t), with_table=False, do_find=do_find, nprobe=60)
     for i in range(nrules):
         r = corpus_rule(i) if i % 4 == 0 else rand_rule(rng)
@@ -1422,7 +1489,7 @@ def synth_tzif(rng):
             if c == 0 and not leaps:
                 c = 1
             leaps.append((t, c))
-            t += rng.randint(2419199, 10**8)
+            t += rng.choice([2419199, 2419199, 2419200, rng.randint(2419199, 10**8)])
     ind = rng.choice(["none", "std", "both", "zero"])
     isstd = bytes(rng.randint(0, 1) for _ in range(ntypes)) if ind in ("std", "both") else (bytes(ntypes) if ind == "zero" else b"")
     isut = bytes((isstd[i] and rng.randint(0, 1)) for i in range(ntypes)) if ind == "both" else (bytes(ntypes) if ind == "zero" else b"")
@@ -1606,6 +1673,7 @@ def gen_hostile_strings(rng, n):
 
 
 def gen_hostile_numbers(rng, n):
+    yield from gen_zone_session(rng, gen_huge_type_list_zone(rng), nprobe=12, do_find=True)
     ext64 = [I64MIN, I64MIN + 1, I64MAX, I64MAX - 1, MINT, MAXT, MINT - 1, MAXT + 1, 0, -1]
     ext32 = [I32MIN + 1, I32MAX, 0, -1, 1, I32MIN + 2, I32MAX - 1]
     for _ in range(n):
